@@ -391,11 +391,31 @@ def _stmt_completes(st) -> bool:
         body_ok = may_complete_normally(st.body) and may_complete_normally(st.orelse or [ast.Pass()])
         return body_ok or any(may_complete_normally(h.body) for h in st.handlers)
     if isinstance(st, ast.Match):
-        exhaustive = any(_irrefutable(c) for c in st.cases)
+        exhaustive = any(_irrefutable(c) for c in st.cases) or _sign_exhaustive(st)
         if not exhaustive:
             return True
         return any(may_complete_normally(c.body) for c in st.cases)
     return True
+
+
+def _sign_exhaustive(st: ast.Match) -> bool:
+    """cases {literal 0, capture if x > 0, capture if x < 0}: exhaustive over ordered numbers (anything else raises TypeError in
+    the guard; NaN is ignored)"""
+    zero = pos = neg = False
+    for c in st.cases:
+        p = c.pattern
+        if isinstance(p, ast.MatchValue) and isinstance(p.value, ast.Constant) and p.value.value == 0 and c.guard is None:
+            zero = True
+        if isinstance(p, ast.MatchAs) and p.pattern is None and p.name and isinstance(c.guard, ast.Compare) and \
+                len(c.guard.ops) == 1 and isinstance(c.guard.left, ast.Name) and c.guard.left.id == p.name and \
+                isinstance(c.guard.comparators[0], ast.Constant) and c.guard.comparators[0].value == 0:
+            if isinstance(c.guard.ops[0], (ast.Gt, ast.GtE)):
+                pos = True
+                zero = zero or isinstance(c.guard.ops[0], ast.GtE)
+            if isinstance(c.guard.ops[0], (ast.Lt, ast.LtE)):
+                neg = True
+                zero = zero or isinstance(c.guard.ops[0], ast.LtE)
+    return zero and pos and neg
 
 
 def _irrefutable(case: ast.match_case) -> bool:
